@@ -372,9 +372,9 @@ func main() {
 		guarded(r, c)
 		return
 	}
-	n := r.N(126, 2520)
+	n := r.N(252, 2520)
 	if r.Phase == "chunked" {
-		n = r.N(18, 180)
+		n = r.N(36, 360)
 	}
 	for i := 0; i < n; i++ {
 		if !r.Mine(i) {
